@@ -20,6 +20,7 @@ abscissa with vertices, on vertices / edges / box border, within and just beyond
 centres of the lattice; a malformed stream (empty polygon, answer vector of the wrong length).
 A case is non-trivial when the polygon has >= 3 vertices and the code answers 1 for some points and 0 for others.
 """
+import json
 import math
 from fractions import Fraction
 
@@ -355,15 +356,12 @@ def body(ctx):
         return far, exact
 
     # ---------------------------------------------------------------- points_inside_polygon
-    npoly = ctx.scale(800, 8000)
-    nmax = ctx.scale(12, 40)
-    npts = 60
-    nq = ctx.scale(800, 1600)            # polygons also evaluated exactly (Rat model + specification)
-    for ip in range(npoly):
-        fam, poly, closed = gen_polygon(rng, nmax if rng.random() < 0.5 else min(nmax, 8))
-        pts, kinds = gen_points(rng, poly, npts)
-        atol = ATOL if rng.random() < 0.75 else rng.choice([0.0, 1e-3, 0.3, 1.5, 1e-12])
-        mode = rng.choice(["default", "default", "atol", "prefilled"])
+    nq = ctx.scale(1200, 2500)            # polygons also evaluated exactly (Rat model + specification)
+    state = {"n": 0}
+
+    def run_case(fam, poly, closed, pts, kinds, atol, mode, allow_invariance=True):
+        ip = state["n"]
+        state["n"] += 1
         inside = None
         if mode == "prefilled":
             inside = np.ones(len(pts), dtype=np.int32)     # must be zeroed by the wrapper
@@ -375,7 +373,7 @@ def body(ctx):
         ctx.count(("pip", pm, tm, atol), nontrivial, f"{fam}{'/closed' if closed else ''}",
                   sample={"family": fam, "polygon": poly[:6], "points": pts[:4], "answers": impl[:20]})
         if got is None:
-            continue
+            return
         for k in set(kinds):
             ctx.hist["pt:" + k] = ctx.hist.get("pt:" + k, 0) + kinds.count(k)
         ep = ExactPolygon(poly, pts)
@@ -390,7 +388,7 @@ def body(ctx):
             qreqs.append(f"pipq {C.f2h(atol)} {pm} {tm}")
             qinfo.append((case, bits(got), farq))
         # invariances on the real code (a subset of the polygons)
-        if in_quantifier(poly, atol) and far is not None and rng.random() < 0.35:
+        if allow_invariance and in_quantifier(poly, atol) and far is not None and rng.random() < 0.35:
             n = len(poly)
             tr = rng.choice(["rotate", "reverse", "close", "translate", "scale"])
             poly2, pts2 = poly, pts
@@ -425,6 +423,35 @@ def body(ctx):
                                      "polygon2": poly2, "point2": pts2[i], "before": int(got[i]), "after": int(got2[i])})
                 if ep2 is not None:
                     oracle_points("points_inside_polygon", fam, poly2, pts2, kinds, got2, ATOL, ep=ep2, far=far2)
+
+    # corpus first: fixed configurations on which ray casting classically fails (ray through a vertex, horizontal
+    # edge on the ray, local extrema level with the point) and minimised past failures
+    cdir = C.ROOT / "corpus" / PID
+    if cdir.is_dir():
+        for f in sorted(cdir.glob("*.json")):
+            for ent in json.loads(f.read_text()).get("cases", []):
+                poly = [tuple(map(float, p)) for p in ent["polygon"]]
+                pts = [tuple(map(float, p)) for p in ent["points"]]
+                run_case("corpus:" + f.stem, poly, False, pts, ["corpus"] * len(pts), float(ent.get("atol", ATOL)),
+                         "default", allow_invariance=False)
+                # every rotation, the reversal and the closed form of a corpus polygon
+                for k in range(1, len(poly)):
+                    run_case("corpus:" + f.stem, poly[k:] + poly[:k], False, pts, ["corpus"] * len(pts), ATOL,
+                             "default", allow_invariance=False)
+                run_case("corpus:" + f.stem, poly[::-1], False, pts, ["corpus"] * len(pts), ATOL, "default",
+                         allow_invariance=False)
+                run_case("corpus:" + f.stem, poly + [poly[0]], True, pts, ["corpus"] * len(pts), ATOL, "default",
+                         allow_invariance=False)
+
+    npoly = ctx.scale(1200, 12000)
+    nmax = ctx.scale(12, 40)
+    npts = 60
+    for _ip in range(npoly):
+        fam, poly, closed = gen_polygon(rng, nmax if rng.random() < 0.5 else min(nmax, 8))
+        pts, kinds = gen_points(rng, poly, npts)
+        atol = ATOL if rng.random() < 0.75 else rng.choice([0.0, 1e-3, 0.3, 1.5, 1e-12])
+        mode = rng.choice(["default", "default", "atol", "prefilled"])
+        run_case(fam, poly, closed, pts, kinds, atol, mode)
 
     # ---------------------------------------------------------------- malformed stream
     for _ in range(ctx.scale(20, 100)):
@@ -546,8 +573,5 @@ def body(ctx):
 def main(tier, replay=None):
     return C.run_check(PID, tier, body, needs_native=True, replay=replay,
                        trusted=["numpy astype/min/max/boolean indexing and pandas.DataFrame construction (external, compared by result)",
-                                "Grid.cell2coord kernel (cell centres recomputed with plain arithmetic and compared)"],
-                       level_partial=LEVEL_PARTIAL)
-
-
-LEVEL_PARTIAL = []
+                                "Grid.cell2coord kernel (cell centres recomputed with plain arithmetic and compared)",
+                                "not formalised: a topological definition of 'interior'; the even-odd rule is the crossing parity of a horizontal ray with the half-open vertex rule (right = left proved; other directions by the exact oracle only)"])
